@@ -21,6 +21,19 @@ CLAIMED = {
         design="6/C19"),
 }
 
+CLAIMED["C12"] = dict(
+    engine="lean+corr_dic",
+    technique="Lean 4 theorems over the regenerated conjugation/guess tables (structural alignment proof for any stem/reading, "
+              "decide +kernel over the whole tables for row/core/guess facts, byte-slicing lemma for new_guessed) + "
+              "differential run of the model against the real dic crate",
+    text="Alignment is proved for all stems and readings and every table row; row membership, core forms and guess "
+         "conjugability are kernel-evaluated over the complete regenerated tables; the model is tied to speech.rs/entry.rs "
+         "by running both on the same requests (conj, guess_form over all kana, new_guessed, words).",
+    note="Specification data authored in Lean (gojūon rows, euphonic set, core forms per class). Rust String/UTF-8 slicing "
+         "modelled by utf8Len/sliceBytes; HashSet results compared as sets. C12_guess_accepts assumes the guesser's cut lies "
+         "inside the shared kana ending. Axioms: propext, Classical.choice, Quot.sound.",
+    design="6/C12")
+
 NOT_YET = "machinery for this property is not built yet in this round (work in progress; see DESIGN.md section 9)"
 
 
